@@ -331,6 +331,28 @@ impl SubCheck for Blanket {
 			expect_array(obs, "array3", a3.to_rpc_params(), &v[..3]);
 			let a0: [Value; 0] = [];
 			expect_array(obs, "array0", a0.to_rpc_params(), &[]);
+			// a value that cannot be serialised, through every blanket impl: an error, never 'no params' and never a
+			// shorter array
+			{
+				let bad = || FailAfter { n: case.methods.len() % 3, map: case.keys.first().is_some_and(|k| k.len() % 2 == 1) };
+				let mut judge = |what: &str, r: Result<Option<Box<serde_json::value::RawValue>>, serde_json::Error>| {
+					if let Ok(x) = r {
+						obs.fail(format!("blanket/{what}-failing-value-not-reported"), format!("{:?}", x.map(|r| r.get().to_string())));
+					}
+				};
+				judge("tuple1", (bad(),).to_rpc_params());
+				judge("tuple2", (v[0].clone(), bad()).to_rpc_params());
+				judge("tuple3", (bad(), v[0].clone(), v[1].clone()).to_rpc_params());
+				judge("slice", (&[bad(), bad()][..]).to_rpc_params());
+				judge("vec", vec![bad()].to_rpc_params());
+				judge("array", [bad(), bad(), bad()].to_rpc_params());
+				let mut bb = BatchRequestBuilder::new();
+				let _ = bb.insert("ok", (v[0].clone(),));
+				let r = bb.insert("bad", (v[0].clone(), bad()));
+				obs.check(r.is_err(), "blanket/batch-entry-failing-value-not-reported", || format!("{:?}", bb.iter().map(|(m, p)| (m.to_string(), p.map(|p| p.get().to_string()))).collect::<Vec<_>>()));
+				let names: Vec<String> = bb.iter().map(|(m, _)| m.to_string()).collect();
+				obs.check(names == ["ok"], "blanket/batch-entry-added-by-failed-insert", || format!("{names:?}"));
+			}
 			// 128-bit integers through every blanket impl and through the builder: the same digits come out
 			if case.wide.len() == 4 {
 				if let (Ok(u0), Ok(u1), Ok(i0), Ok(i1)) = (case.wide[0].parse::<u128>(), case.wide[1].parse::<u128>(), case.wide[2].parse::<i128>(), case.wide[3].parse::<i128>()) {
